@@ -8,7 +8,7 @@ prop, var = sys.argv[1], sys.argv[2]
 checks = [prop]
 if "--checks" in sys.argv:
     checks = sys.argv[sys.argv.index("--checks") + 1].split(",")
-wt = f"/tmp/seed/{prop}"
+wt = os.environ.get("SEED_ROOT", "/tmp/seed") + f"/{prop}"
 src = f"{wt}/out/{var}"
 DESELECT = ["tests/test_cli.py::test_run_bad_override", "tests/test_cli.py::test_run_bad_path",
             "tests/test_cli.py::test_run_missing_root_component_config", "tests/test_cli.py::test_run_missing_root_component_type"]
@@ -44,7 +44,7 @@ try:
     meta["detected_by"] = [c for c, v in meta["checks"].items() if v["exit"] == 1]
 finally:
     sh(["git", "-C", wt, "checkout", "--", "."])
-dst = os.path.join(VERIF, "seeded", f"{prop}_{var}")
+dst = os.path.join(VERIF, "seeded", f"{prop}_{os.environ.get('SEED_TAG', '')}{var}")
 os.makedirs(dst, exist_ok=True)
 for f in ("patch.diff", "demo.py", "notes.md"):
     if os.path.exists(f"{src}/{f}"):
